@@ -239,16 +239,27 @@ def check(run, F, tier):
             # result must flow into a Try::branch / match (propagated), i.e. dest is used by a later call/switch
             f, b, t = kinds[k][0]
             dest = t["dest"]["l"]
-            used = False
+            used = dest == 0          # returned as the function's own result
+            # ... or moved into the return place (possibly through one temporary)
+            alias = {dest}
+            for _ in range(3):
+                for b2 in f["blocks"]:
+                    for s in b2["stmts"]:
+                        if s["k"] == "assign" and s["rv"]["k"] == "use":
+                            pl = s["rv"]["op"].get("move") or s["rv"]["op"].get("copy")
+                            if pl and pl["l"] in alias and not pl["p"] and not s["lhs"]["p"]:
+                                alias.add(s["lhs"]["l"])
+            if 0 in alias:
+                used = True
             for b2 in f["blocks"]:
                 tt = b2["term"]
                 if tt["k"] == "call":
                     for a in tt["args"]:
                         pl = a.get("move") or a.get("copy")
-                        if pl and pl["l"] == dest:
+                        if pl and pl["l"] in alias:
                             used = True
                 for s in b2["stmts"]:
-                    if s["k"] == "assign" and s["rv"]["k"] == "discr" and s["rv"]["place"]["l"] == dest:
+                    if s["k"] == "assign" and s["rv"]["k"] == "discr" and s["rv"]["place"]["l"] in alias:
                         used = True
             if used:
                 r3.ok(key, f["path"].split("::")[-2] + "::" + f["path"].split("::")[-1])
